@@ -418,6 +418,36 @@ def _r6(ctx, pkg, ci):
     SIGNED number, WORD/NUMBER/UNDER chain into names) and only Earley lets the grammar decide where a token ends.  R1's rule-graph
     argument is about that parser; a greedy (LALR / standard-lexer) construction tokenises `y+2` after a name as one atom."""
     n = 0
+    encl = {id(c): f for f in ast.walk(ci.node) if isinstance(f, ast.FunctionDef) for c in ast.walk(f) if isinstance(c, ast.Call)}
+
+    def values(v, fn, depth=0):
+        """the constants an option expression can take: a literal; a local bound once in the enclosing function; a lookup
+        `self.TABLE.get(key, default)` / `self.TABLE[key]` in a class-level dict of literals (every value of the table, and the
+        default); None when it cannot be told"""
+        if isinstance(v, ast.Constant):
+            return {v.value}
+        if depth > 4:
+            return None
+        if isinstance(v, ast.Name) and fn is not None:
+            defs = [x.value for x in ast.walk(fn) if isinstance(x, ast.Assign) and len(x.targets) == 1 and isinstance(x.targets[0], ast.Name) and x.targets[0].id == v.id]
+            stores = [x for x in ast.walk(fn) if isinstance(x, ast.Name) and x.id == v.id and isinstance(x.ctx, (ast.Store, ast.Del))]
+            return values(defs[0], fn, depth + 1) if len(defs) == 1 and len(stores) == 1 else None
+        if isinstance(v, ast.IfExp):
+            a, b = values(v.body, fn, depth + 1), values(v.orelse, fn, depth + 1)
+            return None if a is None or b is None else a | b
+        tbl, extra = None, set()
+        if isinstance(v, ast.Call) and isinstance(v.func, ast.Attribute) and v.func.attr == "get" and 1 <= len(v.args) <= 2 and not v.keywords:
+            tbl = v.func.value
+            d = values(v.args[1], fn, depth + 1) if len(v.args) == 2 else {None}
+            if d is None:
+                return None
+            extra = d
+        elif isinstance(v, ast.Subscript):
+            tbl = v.value
+        if isinstance(tbl, ast.Attribute) and isinstance(tbl.value, ast.Name) and tbl.value.id in ("self", "cls", "ExpressionConverter") and isinstance(ci.attrs.get(tbl.attr), ast.Dict) \
+                and all(isinstance(x, ast.Constant) for x in ci.attrs[tbl.attr].values):
+            return {x.value for x in ci.attrs[tbl.attr].values} | extra
+        return None
     for c in ast.walk(ci.node):
         if isinstance(c, ast.Call) and ast.unparse(c.func) == "Lark":
             n += 1
@@ -427,12 +457,11 @@ def _r6(ctx, pkg, ci):
                 v = kw.get(name)
                 if v is None:
                     continue
-                if isinstance(v, ast.Constant) and v.value in ("earley", "dynamic", "dynamic_complete"):
-                    continue
-                if not isinstance(v, ast.Constant):
+                vals = values(v, encl.get(id(c)))
+                if vals is None:
                     unknown.append(f"{name}={ast.unparse(v)}")
-                    continue
-                bad.append(f"{name}={ast.unparse(v)}")
+                elif not vals <= {"earley", "dynamic", "dynamic_complete"}:
+                    bad.append(f"{name}={ast.unparse(v)}" + ("" if isinstance(v, ast.Constant) else f" (one of {sorted(map(str, vals))})"))
             amb = kw.get("ambiguity")
             if amb is not None and not (isinstance(amb, ast.Constant) and amb.value == "resolve"):
                 (bad if isinstance(amb, ast.Constant) else unknown).append(f"ambiguity={ast.unparse(amb)}")
